@@ -471,10 +471,13 @@ def backport(repo: Repo) -> RuleRun:
         grid = Obj("grid")
         newpts = [Sym(f"y{i}") for i in range(6)]
         grid.set("points", newpts)
+        # one clamped point (2), one follower of a link (5, no clamp of its own), the rest free: ALL of them were moved
+        grid.set("junctions", [Obj(f"junction{i}", index=i, point=newpts[i], clamp=(Sym("clamp") if i == 2 else None), links=[]) for i in range(6)])
         this.set("grid", grid)
         sk = Obj("sketch", cls=repo.cls("construct.flat.sketches.mapped.MappedSketch"))
         sk.set("indexes", quads)
         sk.set("_faces", faces)
+        sk.set("positions", [Sym(f"old{i}") for i in range(6)])
         this.set("sketch", sk)
         rec = {"methods": {"update"}, "calls": []}
 
